@@ -12,7 +12,7 @@ def tfReqItem : Nat := 0
 def tfResItem : Nat := 0
 def tfRelRes : Nat := 1
 def tfConRes : Nat := 1
-def tfPutItem : Nat := 2
+def tfPutItem : Nat := 3
 def tfTryFwd : Nat := 0
 def slotIdx (i n : Nat) : Nat := (i &&& (wrapU 64 (((n : Nat) : Int) - (((wrapU 64 (1 : Int)) : Nat) : Int))))
 def itemValid (i head tail st : Nat) : Bool := (((decide (i < tail)) && (decide (i ≥ head))) && (decide (st ≠ (0 : Nat))))
